@@ -73,8 +73,8 @@ func extractX25519PrivateKey(privateKey interface{}) (*x25519.PrivateKey, error)
 			return nil, oops.Errorf("invalid private key length: expected %d, got %d",
 				x25519.PrivateKeySize, len(pk))
 		}
-		result := x25519.PrivateKey{}
-		copy(result[:], pk)
+		result := make(x25519.PrivateKey, x25519.PrivateKeySize)
+		copy(result, pk)
 		return &result, nil
 	default:
 		return nil, oops.Errorf("invalid private key type: expected *x25519.PrivateKey, x25519.PrivateKey, or 32-byte []byte")
